@@ -30,31 +30,27 @@ Fixpoint rshape (t : rtree) : bool :=
   | RPre d _ a => pre_ok d && rshape a
   | RSuf d _ a => suf_ok d && rshape a
   | RBin d _ l r => bin_ok d && rshape l && rshape r
-  | RGroup b _ a => match b with BRound => rshape a | BCurly => false end   (* round brackets only *)
+  | RGroup _ _ a => rshape a      (* ( a ) and { a } *)
   end.
 
 Definition item_ok (it : item) : bool :=
   match it with
   | IValue d _ => atom_ok d | IPrefix d _ => pre_ok d | ISuffix d _ => suf_ok d | IBinary d _ => bin_ok d
-  | IOpen b _ | IClose b _ => bkind_eqb b BRound
+  | _ => true
   end.
 
-Lemma ref_def_ok : forall t, curly_tok t = false ->
+Lemma ref_def_ok : forall t,
   match ref_kind t with
   | KValue => atom_ok (ref_def t) | KPrefix => pre_ok (ref_def t) | KSuffix => suf_ok (ref_def t)
-  | KBinary => bin_ok (ref_def t) | KOpen b | KClose b => bkind_eqb b BRound | _ => true
+  | KBinary => bin_ok (ref_def t) | _ => true
   end = true.
-Proof. intros t H. destruct t; try reflexivity; discriminate H. Qed.
+Proof. intros t. destruct t; reflexivity. Qed.
 
-Lemma items_of_ok : forall toks i prev sp its, round_only toks = true ->
+Lemma items_of_ok : forall toks i prev sp its,
   items_of toks i prev sp = Some its -> forallb item_ok its = true.
 Proof.
-  induction toks as [|t r IH]; intros i prev sp its Hro H; cbn [items_of] in H; [injection H as <-; reflexivity|].
-  cbn [round_only forallb] in Hro. apply andb_true_iff in Hro. destruct Hro as [Hct Hro]. apply negb_true_iff in Hct.
-  fold (round_only r) in Hro.
-  assert (IH' : forall i prev sp its, items_of r i prev sp = Some its -> forallb item_ok its = true)
-    by (intros; eapply IH; eauto). clear IH. rename IH' into IH.
-  pose proof (ref_def_ok t Hct) as Hd.
+  induction toks as [|t r IH]; intros i prev sp its H; cbn [items_of] in H; [injection H as <-; reflexivity|].
+  pose proof (ref_def_ok t) as Hd.
   destruct (ref_kind t) eqn:Hk; try discriminate H; try (eapply IH; exact H).
   all: destruct (items_of r (S i) _ false) as [rest|] eqn:Hr; [|discriminate H]; injection H as <-;
        rewrite forallb_app; cbn [forallb item_ok]; rewrite (IH _ _ _ _ Hr);
@@ -87,19 +83,18 @@ Proof.
       destruct (climb f p None r) as [[arg r']|] eqn:E; [|discriminate].
       destruct (IH p None r arg r' Hr I E) as [A B].
       eapply IH; [exact B | | exact H]. cbn. rewrite Hd, A. reflexivity.
-    + cbn [forallb item_ok] in Hits. apply andb_true_iff in Hits. destruct Hits as [Hb Hits].
+    + cbn [forallb item_ok] in Hits.
       destruct (climb f INF None r) as [[inner [|[d0 i0|d0 i0|d0 i0|d0 i0|b0 i0|b0 i0] r']]|] eqn:E; try discriminate.
       destruct (bkind_eqb b b0); [|discriminate].
       destruct (IH INF None r inner _ Hits I E) as [A B]. cbn [forallb item_ok] in B.
-      apply andb_true_iff in B. destruct B as [_ B].
-      eapply IH; [exact B | | exact H]. destruct b; [exact A|discriminate Hb].
+      eapply IH; [exact B | | exact H]. exact A.
 Qed.
 
-Lemma pratt_shape : forall toks R, round_only toks = true -> pratt toks = Some R -> rshape R = true.
+Lemma pratt_shape : forall toks R, pratt toks = Some R -> rshape R = true.
 Proof.
-  intros toks R Hro H. unfold pratt in H. destruct (items_of toks 0 None false) as [its|] eqn:Hi; [|discriminate].
+  intros toks R H. unfold pratt in H. destruct (items_of toks 0 None false) as [its|] eqn:Hi; [|discriminate].
   destruct (climb (4 * length its + 8) INF None its) as [[t [|c rc]]|] eqn:Hc; try discriminate. injection H as <-.
-  exact (proj1 (climb_shape _ INF None its t [] (items_of_ok _ _ _ _ _ Hro Hi) I Hc)).
+  exact (proj1 (climb_shape _ INF None its t [] (items_of_ok _ _ _ _ _ Hi) I Hc)).
 Qed.
 
 Lemma rshape_shift : forall a t, rshape (shift_rtree a t) = rshape t.
@@ -329,14 +324,16 @@ Proof.
         | intros c; cbn [bal]; rewrite Hk;
           rewrite (child_plain l false IHl Hsl Hnl Hel Hrl Hdl), (child_plain r false IHr Hsr Hnr Her Hrr Hdr); reflexivity
         | intros d' ->; apply count_other; [exact Hlst | rewrite Hk; discriminate] ].
-  - (* a group *)
-    destruct b; [|discriminate Hs]. cbn [bdef] in *.
+  - (* a group ( a ), or a nested expression { a }: an out-of-line body that starts with nothing pending *)
     destruct (at_heads_inv _ _ _ _ _ _ Hn) as [_ [_ Hn']]. destruct (at_heads_inv _ _ _ _ _ _ Hearly) as [_ [_ He']].
-    cbn [reapply_pending drops_arms opt_b kind_of orb] in Hre, Hda, Hn', He'.
-    apply concl_plain; auto.
-    + intros c. cbn [bal kind_of].
-      pose proof (child_plain a tail IH Hs Hn' He' Hre Hda) as Hc. apply is_some_n_eq in Hc. exact Hc.
-    + intros d' ->. apply count_other; [exact Hlst | discriminate].
+    destruct b; cbn [bdef] in *; cbn [reapply_pending drops_arms opt_b kind_of orb] in Hre, Hda, Hn', He'.
+    + apply concl_plain; auto.
+      * intros c. cbn [bal kind_of].
+        pose proof (child_plain a tail IH Hs Hn' He' Hre Hda) as Hc. apply is_some_n_eq in Hc. exact Hc.
+      * intros d' ->. apply count_other; [exact Hlst | discriminate].
+    + apply concl_plain; auto.
+      * intros c. cbn [bal kind_of]. rewrite (child_plain a true IH Hs Hn' He' Hre Hda). reflexivity.
+      * intros d' ->. apply count_other; [exact Hlst | discriminate].
 Qed.
 
 (* ---- && / || never has a conditional as its left operand (C05-K2 is outside the fragment) ---- *)
@@ -472,19 +469,19 @@ Proof.
     destruct (registers (img l)) eqn:Hreg; [|reflexivity]. exfalso.
     destruct (registers_root_rank l Hsl Hreg) as [p [Hp Hv]]. rewrite Hp in Hroot.
     destruct (logical_rank d i0 Hk) as [E|E]; rewrite E in Hroot; apply N.leb_le in Hroot; destruct Hv; subst p; discriminate Hroot || (cbv in Hroot; congruence).
-  - destruct b; [|discriminate Hs]. cbn [bdef kind_of]. exact (IH Hs Hl).
+  - destruct b; cbn [bdef kind_of]; exact (IH Hs Hl).
 Qed.
 
 (* ---- the theorem ---- *)
-Theorem operator_expression_balanced : forall toks R, round_only toks = true -> pratt toks = Some R ->
+Theorem operator_expression_balanced : forall toks R, pratt toks = Some R ->
   exists root nodes t,
     parse toks = Ok (root, nodes) /\ Compile.tree_of nodes root = Some t /\
     drops_arms t = false /\
     (has_chain_no_else t = false -> has_chain_early_else t = false -> has_reapply_pending t = false ->
      balanced t = true).
 Proof.
-  intros toks R Hro H. destruct (pratt_tree_of toks R H) as (Tn & ns & Hp & Ht & _ & _ & E).
-  pose proof (pratt_shape toks R Hro H) as Hs. pose proof (pratt_leftok toks R H) as Hl.
+  intros toks R H. destruct (pratt_tree_of toks R H) as (Tn & ns & Hp & Ht & _ & _ & E).
+  pose proof (pratt_shape toks R H) as Hs. pose proof (pratt_leftok toks R H) as Hl.
   rewrite E, rshape_shift in Hs. rewrite E, leftok_shift in Hl.
   pose proof (leftok_drops Tn Hs Hl) as Hd.
   exists (nid Tn), ns, (img Tn). split; [exact Hp|]. split; [exact Ht|]. split; [exact Hd|].
